@@ -15,6 +15,7 @@ setup_properties on plain particle arrays.  Then, per configuration,
 "A short run leaves all properties finite" is not decided.  Nothing is imported from the repository.
 """
 import ast
+import re
 import os
 import sys
 
@@ -72,7 +73,8 @@ def instantiate(it, cref):
     for p in params:
         if is_role_param(p):
             if p == params[0]:
-                args[p] = ['<%s>' % p]
+                # two arrays in the first role (two fluids): what a scheme does "for every fluid" must reach both
+                args[p] = ['<%s>' % p, '<%s>#2' % p]
             else:
                 none_default = p in defaults and isinstance(defaults[p], ast.Constant) and defaults[p].value is None
                 v = it.cfg.decide(('role', p), ['some', 'none'])
@@ -347,6 +349,53 @@ def rule_helpers_declared(chk, ci):
     chk.floor('helper calls in equation hooks', n, 10)
 
 
+def rule_stepper_wrappers(chk):
+    """IntegratorCythonHelper.get_stepper_code interpreted (E8) on a model integrator whose arrays use two stepper classes - one of them through two different objects -
+    with a recording code generator: the generated source must hold the wrapper of every stepper class in use, once each (a class without a wrapper is an undeclared type
+    in `cdef public <Cls> <array>_stepper`, a wrapper emitted twice is a redeclaration: neither module builds)"""
+    from verif_static import emit as EM, absint as AI
+    IHF = 'pysph/sph/integrator_cython_helper.py'
+    fn = M.find_method(M.py(IHF), 'IntegratorCythonHelper', 'get_stepper_code')
+    if fn is None:
+        raise AnalysisError('IntegratorCythonHelper.get_stepper_code vanished')
+    bad, nrun = None, 0
+    try:
+        for order in (('a', 'b', 'c'), ('b', 'a', 'c'), ('a', 'c', 'b')):
+            it = EM.interpreter()
+            EM.model_module(it, '<steppers>', 'class StepA(object):\n    pass\n\nclass StepB(object):\n    pass\n')
+            cache = it.module_tree(IHF)[1]
+
+            def name_of(o):
+                c = getattr(o, 'attrs', {}).get('__class__')
+                return getattr(getattr(c, 'node', None), 'name', repr(o))
+
+            def generator(i, a, k, n, e):
+                st = {'last': None}
+
+                def parse(i2, a2, k2, n2, e2):
+                    st['last'] = a2[0] if a2 else k2.get('obj')
+                    return None
+
+                def get_code(i2, a2, k2, n2, e2):
+                    return 'WRAPPER<%s>' % name_of(st['last'])
+                return EM.mock(parse=parse, get_code=get_code)
+            cache['CythonGenerator'] = generator
+            objs = {'a': EM.instance(it, '<steppers>', 'StepA'), 'b': EM.instance(it, '<steppers>', 'StepB'), 'c': EM.instance(it, '<steppers>', 'StepA')}
+            from collections import OrderedDict
+            steppers = OrderedDict((k, objs[k]) for k in order)
+            h = EM.instance(it, IHF, 'IntegratorCythonHelper', object=EM.mock(steppers=steppers), acceleration_eval_helper=EM.mock(known_types={}))
+            txt = str(EM.call(it, h, 'get_stepper_code'))
+            nrun += 1
+            got = sorted(re.findall(r'WRAPPER<([^>]*)>', txt))
+            if got != ['StepA', 'StepB']:
+                bad = bad or 'arrays %s with steppers %s: wrappers emitted for %s (expected StepA and StepB once each)' % (list(order), [name_of(objs[k]) for k in order], got)
+        chk.decide(bad is None, 'stepper-wrappers-complete', 'one-wrapper-per-stepper-class:model-run', node=fn, file=IHF, func='IntegratorCythonHelper.get_stepper_code',
+                   detail_bad='%s: the generated integrator declares `cdef public <Cls> <array>_stepper` for a class it never defines (or defines one twice) and cannot be built' % bad,
+                   detail_ok='%d model integrators with two stepper classes over three arrays: every class wrapped exactly once' % nrun)
+    except (AI.Unsupported, AI.Raised) as e:
+        chk.undecided('stepper-wrappers-complete', 'one-wrapper-per-stepper-class:model-run', node=fn, file=IHF, func='IntegratorCythonHelper.get_stepper_code', detail='not interpretable: %s' % e)
+
+
 def U(n_):
     return M.unparse(n_)
 
@@ -373,6 +422,8 @@ def main(chk):
     c03 = importlib.util.module_from_spec(spec03)
     spec03.loader.exec_module(c03)
     c03.rule_regroup(chk)
+    # the integrator's steppers reach the generated code: every stepper class in use gets its wrapper (model run)
+    rule_stepper_wrappers(chk)
     chk.floor('Scheme subclasses', len(schemes), 17)
     total_cfg = 0
     total_sites = 0
@@ -382,6 +433,7 @@ def main(chk):
             chk.note('%s provides no setup_properties (outside the property)' % who)
             continue
         missing = {}      # (kind, class, role, prop) -> (config text, node, rel, count)
+        counted = set()
         ctor = {}
         crashes = {}
         undecided = {}
@@ -409,7 +461,7 @@ def main(chk):
                     want = first[pname]      # a spec list shared between arrays must mean the same for each of them
                     got = pa.attrs['stride'].get(pname, 1)
                     if pname in pa.attrs['properties'] and got != want and not pa.attrs['top']:
-                        k = ('stride', 'setup_properties', pa.attrs['name'], '%s:%s!=%s' % (pname, got, want))
+                        k = ('stride', 'setup_properties', pa.attrs['name'].split('#')[0], '%s:%s!=%s' % (pname, got, want))
                         if k not in missing:
                             missing[k] = [describe(cfg), node, r2, 0, '']
                         missing[k][3] += 1
@@ -461,10 +513,12 @@ def main(chk):
                         sites.add((inst.cls.node.name, role, side))
                         for prop, (hook, hrel, hfn) in need.items():
                             if prop not in have:
-                                k = ('equation', inst.cls.node.name, role, side + '_' + prop)
+                                k = ('equation', inst.cls.node.name, role.split('#')[0], side + '_' + prop)
                                 if k not in missing:
-                                    missing[k] = [describe(cfg), inst.node, inst.rel, 0, hook]
-                                missing[k][3] += 1
+                                    missing[k] = [describe(cfg) + (' (the second array of the role)' if '#' in role else ''), inst.node, inst.rel, 0, hook]
+                                if (k, id(cfg)) not in counted:
+                                    counted.add((k, id(cfg)))
+                                    missing[k][3] += 1
                 for role, st in res['steppers']:
                     pa = res['arrays'].get(role)
                     if pa is None or pa.attrs['top']:
@@ -474,10 +528,12 @@ def main(chk):
                     sites.add((st.cls.node.name, role, 'step'))
                     for prop, (hook, hrel, hfn) in d.items():
                         if prop not in have:
-                            k = ('stepper', st.cls.node.name, role, 'd_' + prop)
+                            k = ('stepper', st.cls.node.name, role.split('#')[0], 'd_' + prop)
                             if k not in missing:
-                                missing[k] = [describe(cfg), st.node, st.rel, 0, hook]
-                            missing[k][3] += 1
+                                missing[k] = [describe(cfg) + (' (the second array of the role)' if '#' in role else ''), st.node, st.rel, 0, hook]
+                            if (k, id(cfg)) not in counted:
+                                counted.add((k, id(cfg)))
+                                missing[k][3] += 1
         except A.Unsupported as e:
             chk.undecided('scheme-interpretable', who, node=cls, file=rel, func=who, detail='the set-up code of %s uses a construct the interpreter does not model: %s' % (who, e))
             continue
